@@ -62,7 +62,7 @@ def run(ctx, eng):
         above = None
         for e in p.events:
             if e.kind == 'assume' and e.cond[0] == 'cmp0':
-                s = T.show(e.cond)
+                s = cm.show0(e.cond)
                 if 'stream_id' in s and 'highest' in s:
                     above = s
         kinds.setdefault(tuple(sorted(p.exc['names'])), set()).add(above)
